@@ -34,7 +34,15 @@ class Box:
     pass
 
 
+class BoxS:
+    """Instance with __setstate__: its state mapping is built in deep mode."""
+
+    def __setstate__(self, state):
+        self.__dict__.update(state)
+
+
 BOXTAG = PY + 'object:vf.checks.c13.Box'
+BOXSTAG = PY + 'object:vf.checks.c13.BoxS'
 LEVELS = {'safe': ['SafeLoader', 'CSafeLoader'], 'full': ['FullLoader', 'CFullLoader'], 'unsafe': ['UnsafeLoader', 'CUnsafeLoader']}
 
 
@@ -59,6 +67,8 @@ class GraphGen:
         self.expect = 'ok'
         self.nalias = 0
         self.classes = set()
+        self.pure = {}                # anchor name -> the anchored subtree contains no alias
+        self.deep = 0                 # inside the state of a BoxS (deep construction): no anchors, aliases to closed nodes only
 
     def name(self):
         self.n += 1
@@ -76,7 +86,7 @@ class GraphGen:
         if v == '' and style == 'plain':
             style = 'single'
         s = S(v, style)
-        if r.random() < 0.15:
+        if r.random() < 0.15 and not self.deep:
             s.anchor = self.name()
             s.value = 'anchored ' + s.anchor      # unique value: aliased as keys, two of them never collide
             if s.style == 'plain' and s.value.startswith('x-'):
@@ -88,7 +98,11 @@ class GraphGen:
         """An alias to a closed or open anchor, or None."""
         r = self.r
         cands = [(n, k, 'closed') for n, k, _ in self.closed]
-        if not hashable_only:
+        if self.deep:
+            # deep construction builds an aliased node to the end before recording it: only alias-free (tree-shaped) targets are
+            # certain to be constructible there whatever the construction order (cf. known finding F20)
+            cands = [c for c in cands if c[1] == 'scalar' or self.pure.get(c[0])]
+        if not hashable_only and not self.deep:
             cands += [(n, k, 'open') for n, k in self.open]
         if hashable_only:
             cands = [c for c in cands if c[1] == 'scalar']
@@ -121,9 +135,15 @@ class GraphGen:
             kinds += ['tuple', 'tuple']
         if self.level == 'unsafe':
             kinds += ['box', 'box']
+            if not self.deep:
+                kinds += ['boxs']
         kind = r.choice(kinds)
-        anchor = self.name() if r.random() < 0.45 else None
+        anchor = self.name() if (r.random() < 0.45 and not self.deep) else None
+        aliases_before = self.nalias
         flow = r.random() < 0.4
+        if kind == 'boxs':
+            self.deep += 1
+            self.classes.add('deep_state')
         if not hasattr(self, 'path'):
             self.path = []
         self.path.append((anchor, kind))
@@ -139,6 +159,9 @@ class GraphGen:
             m = M([(self.keynode(used), self.node(depth + 1)) for _ in range(n)], flow, None, anchor)
         elif kind == 'box':
             m = M([(S('attr%d' % i, 'plain'), self.node(depth + 1)) for i in range(n)], flow, BOXTAG, anchor)
+        elif kind == 'boxs':
+            m = M([(S('attr%d' % i, 'plain'), self.node(depth + 1)) for i in range(max(n, 1))], flow, BOXSTAG, anchor)
+            self.deep -= 1
         elif kind == 'set':
             used = set()
             m = M([(self.keynode(used), S('null', 'plain')) for _ in range(n)], flow, CORE + 'set', anchor)
@@ -152,6 +175,7 @@ class GraphGen:
         if anchor:
             self.open.pop()
             self.closed.append((anchor, kind, m))
+            self.pure[anchor] = (self.nalias == aliases_before)
         self.classes.add('kind:' + kind)
         return m
 
@@ -283,7 +307,7 @@ def walk_model_nodes(model, node, table, seen):
             walk_model_nodes(mv, cv, table, seen)
 
 
-CONTAINERS = (list, dict, set, Box)
+CONTAINERS = (list, dict, set, Box, BoxS)
 
 
 def walk_nodes_objects(node, obj, n2o, o2n, visited):
@@ -326,8 +350,8 @@ def walk_nodes_objects(node, obj, n2o, o2n, visited):
             if type(obj) is not set or len(obj) != len(node.value):
                 raise Mismatch('!!set node built into %s' % type(obj).__name__)
             return
-        if tag == BOXTAG:
-            if type(obj) is not Box:
+        if tag in (BOXTAG, BOXSTAG):
+            if type(obj) is not (Box if tag == BOXTAG else BoxS):
                 raise Mismatch('python/object node built into %s' % type(obj).__name__)
             d = obj.__dict__
         else:
@@ -432,7 +456,16 @@ def check_identity(text, docs, expects, level, ctx, case):
 # anchor rules
 
 def rules_case(r, ctx, i):
-    kind = r.choice(['forward', 'cross_document', 'duplicate', 'duplicate', 'self_key', 'container_key', 'tuple_cycle', 'alias_key_set'])
+    kind = r.choice(['forward', 'cross_document', 'duplicate', 'duplicate', 'self_key', 'container_key', 'tuple_cycle', 'alias_key_set', 'merge_self', 'merge_cycle'])
+    if kind in ('merge_self', 'merge_cycle'):
+        # a merge key that leads back to a mapping still being built: built or rejected with a constructor error, never a loop
+        text = r.choice(['&a {k: v, <<: *a}\n', '&a\nk: v\n<<: *a\nz: 1\n', '- &a {<<: [*a, {x: 1}], y: 2}\n'] if kind == 'merge_self' else
+                        ['top: &a {inner: &b {<<: *a}, <<: *b}\n', '&a {i: &b {j: &c {<<: [*a, *b]}, <<: *c}}\n', '- &a {x: &b {<<: *a, p: 1}, y: *b}\n'])
+        case = {'kind': 'rules', 'rule': kind, 'level': 'safe', 'text': text, 'want': 'ok|ConstructorError'}
+        ctx.crumb(case)
+        ctx.case(core.h64(text), True, ['rule:' + kind])
+        check_rule(text, kind, 'ok|ConstructorError', 'safe', ctx, case)
+        return
     level = 'safe'
     nodekind = r.choice(['scalar', 'seq', 'map', 'set', 'omap'])
 
@@ -504,7 +537,7 @@ def check_rule(text, kind, want, level, ctx, case, ndocs=1):
     for lname in yamlapi.loaders(names):
         L = getattr(yaml, lname)
         for op in ('compose_all', 'load_all'):
-            if want == 'ConstructorError' and op == 'compose_all':
+            if want in ('ConstructorError', 'ok|ConstructorError') and op == 'compose_all':
                 continue
             got = 'ok'
             n = 0
@@ -524,7 +557,7 @@ def check_rule(text, kind, want, level, ctx, case, ndocs=1):
             except Exception as e:
                 got = 'nonyaml:' + type(e).__name__
             ctx.stat('rule_probes')
-            if got != want:
+            if got != want and not ('|' in want and got in want.split('|')):
                 ctx.violation(dict(case, loader=lname, op=op), {'what': 'anchor rule not enforced as stated', 'rule': kind, 'got': got, 'want': want,
                                                                 'documents_before': n}, None)
             elif kind == 'cross_document' and n != 1:
